@@ -87,6 +87,9 @@ func (fr *Frame) indexAddr(in *ssa.IndexAddr) Val {
 	vc := fr.vc
 	x := fr.get(in.X)
 	i := fr.get(in.Index).T()
+	if _, isConst := in.Index.(*ssa.Const); !isConst {
+		fr.addHint(i)
+	}
 	var base, idx string
 	var et types.Type
 	switch t := in.X.Type().Underlying().(type) {
@@ -249,9 +252,9 @@ func (vc *VC) mapKey(kt types.Type, k Val) string {
 	}
 	f := vc.declFun("mapkey_"+vc.typeName(kt), srt, "Int")
 	t := "(" + f + " " + joinSp(k.L) + ")"
-	// injectivity via inverse functions (ground instances)
+	// injectivity via inverse functions (ground instances; skipped under a quantifier)
 	key := "mapkeyfact:" + t
-	if !vc.specDone[key] {
+	if !vc.specDone[key] && !strings.Contains(t, "bv.") {
 		vc.specDone[key] = true
 		for i, l := range sh {
 			inv := vc.declFun(fmt.Sprintf("mapkeyinv%d_%s", i, vc.typeName(kt)), []string{"Int"}, l.Sort)
